@@ -16,8 +16,7 @@ def gen_ws_case(rng):
             frames.append("p" + (hexs(bytes(rng.randint(0, 255) for _ in range(rng.choice([0, 3])))) if rng.chance(0.5) else ""))
         elif r < 0.25:
             p = bytes(rng.choice(b"abcxyz019/") for _ in range(min(size, 300)))
-            frames.append("t" + hexs(p))
-            payloads.append(p)
+            frames.append("t" + hexs(p))       # a text message: not part of the MQTT byte stream (binary messages only)
         else:
             p = bytes((i * 37 + j) & 0xFF for j in range(size))
             frames.append("b" + hexs(p))
@@ -56,8 +55,10 @@ def gen_ws_write_case(rng):
         c = rng.random()
         if c < 0.45:
             plan.append(f"a{rng.choice([1, 2, 3, 5, 6, 7, 10, 64, 130, 5000])}")
-        elif c < 0.93:
+        elif c < 0.80:
             plan.append("b")
+        elif c < 0.93:
+            plan.append("i")
         else:
             plan.append("e")
     return "ws.write chunks=" + ",".join(hexs(c) for c in chunks) + (" wplan=" + ",".join(plan) if plan else ""), chunks
@@ -71,7 +72,8 @@ def suite_ws_write(report, tier, seed, prop="C13"):
     cases = [gen_ws_write_case(rng) for _ in range(n)]
     # regression corpus: a socket that takes part of the frame and then would block (the bytes used to be sent twice)
     cases = [("ws.write chunks=x0102030405060708 wplan=a5,b", [bytes(range(1, 9))]),
-             ("ws.write chunks=x0102030405060708,x090a wplan=b,b,a3,b,a100", [bytes(range(1, 9)), bytes([9, 10])])] + cases
+             ("ws.write chunks=x0102030405060708,x090a wplan=b,b,a3,b,a100", [bytes(range(1, 9)), bytes([9, 10])]),
+             ("ws.write chunks=x0102030405060708 wplan=a5,i,a100", [bytes(range(1, 9))])] + cases
     reqs = [c[0] for c in cases]
     impl = harness_batch(reqs)
     model = driver_batch(reqs)
@@ -154,7 +156,7 @@ def suite_ws(report, tier, seed, prop="C13"):
         specs = [x for x in req.split("frames=")[1].split(" ")[0].split(",") if x]
         before, fails = 0, []
         for sp in specs:
-            if sp[0] in "bt":
+            if sp[0] == "b":
                 before += len(unhex(sp[1:])) if len(sp) > 1 else 0
             elif sp[0] == "x":
                 fails.append(("once", before))
@@ -362,6 +364,47 @@ def suite_fidelity(report, tier, seed, prop="C13"):
     report.obligation("corr:fidelity", "correspondence", corr_ok and wl_ok,
                       f"{len(cases)} scenarios on the real tokio/threaded clients; engine model predicts the stream, WriteLoop model replays {len(wl_reqs)} transport call logs")
     report.obligation("mon:fidelity", "monitor", mon_ok, "transport bytes = engine stream (no loss, duplication, reordering) under partial writes, stalls and read fragmentation; results resolve once")
+
+
+def suite_flush_service(report, prop="C13"):
+    """a flush that stays pending (buffering stream) while the engine is serviced again and continues an operation that did
+    not fit the output buffer: write completion may only be reported once those bytes are with the transport too.  Threaded
+    client; a subscribe with a 300 ms ack timeout that is never answered makes the service time come due while the flush is
+    held; then the rest of a 6000-byte QoS 0 publish would block, the flush is released, and finally the transport either
+    fails or takes the rest."""
+    cases = [("drv.run kind=threaded v=5 fplan=o,o,w wplan=a100000,a100000,a100000,b,e | start;waitwire:1;subto:300;waitwire:2;sleep:20;pub:0:6000;sleep:700;frelease;sleep:100;mark:flushed;sleep:50;release;sleep:300", "fails"),
+             ("drv.run kind=threaded v=5 fplan=o,o,w wplan=a100000,a100000,a100000,b,a100000 | start;waitwire:1;subto:300;waitwire:2;sleep:20;pub:0:6000;sleep:700;frelease;sleep:100;mark:flushed;sleep:50;release;sleep:300", "takes-rest")]
+    impl = harness_batch_parallel([c[0] for c in cases])
+    ok = True
+    for (req, variant), a in zip(cases, impl):
+        report.case(req)
+        report.traces_validated += 1
+        fa, _ = resp_fields(a)
+        if fa.get("res") != "ok":
+            ok = False
+            report.add_finding(Finding(prop, "mon:flush-service", {"clause": "scenario-failed"}, "driver scenario failed: " + a[:160], [req]))
+            continue
+        wires = [w for w in fa.get("wires", "").split(",") if w]
+        full = 18 + 15 + 6011
+        first_len = (len(wires[0]) - 1) // 2 if wires else 0
+        if variant == "takes-rest":
+            if len(wires) != 1 or first_len != full or ":ok" not in fa.get("results", "").split(",")[-1]:
+                ok = False
+                report.add_finding(Finding(prop, "mon:flush-service", {"clause": "completion-before-written"},
+                                           f"the transport took every byte ({first_len} of {full}) of a healthy connection, yet {len(wires)} connections were made / the publish "
+                                           f"did not simply succeed: write completion was reported while bytes were still unsent", [req, "# impl: " + a[:300].replace(wires[0], f"x<{first_len} bytes>")]))
+        else:
+            # the publish's result must not have been delivered as success before the transport failed: at the |flushed| mark
+            # (flush released, rest of the packet still blocked) the operation has to be unresolved
+            results_at_mark = fa.get("marks", "")
+            ev = fa.get("events", "")
+            early = "flushed=" in results_at_mark and ":ok" in results_at_mark.split("flushed=")[1].split(";")[0].split("+")[-1]
+            if early:
+                ok = False
+                report.add_finding(Finding(prop, "mon:flush-service", {"clause": "completion-before-written"},
+                                           f"a QoS 0 publish was resolved as sent while {full - first_len} bytes of its packet were still unsent (the transport then failed)",
+                                           [req, "# impl: " + a[:300].replace(wires[0], f"x<{first_len} bytes>")]))
+    report.obligation("mon:flush-service", "monitor", ok, "flush pending + service producing more bytes: completion only after every byte is with the transport")
 
 
 def gen_close_race(rng, i):
